@@ -575,7 +575,10 @@ def inline_helper(toks, helper, log, where):
                         # UFCS call: first argument is the receiver
                         recv = untok(args[0]).strip()
                         args = args[1:]
-                    if helper["self_kind"] == "ref":
+                    if helper["self_kind"] == "mut":
+                        # `&mut self` helper: the receiver is a simple place path; `self.<x>` in the body means `<recv>.<x>`
+                        pass
+                    elif helper["self_kind"] == "ref":
                         binds.append("let vx_self = %s;" % (recv if recv == "self" else "&(" + recv + ")"))
                     else:
                         binds.append("let vx_self = %s;" % recv)
@@ -586,7 +589,7 @@ def inline_helper(toks, helper, log, where):
                 body = []
                 for x in helper["body_toks"]:
                     if x.kind == "ident" and x.text == "self":
-                        body.extend(syn("vx_self"))
+                        body.extend(syn(recv if helper["self_kind"] == "mut" else "vx_self"))
                     else:
                         body.append(x)
                 blk = syn("{ " + " ".join(binds) + " ") + body + syn(" }")
@@ -623,7 +626,7 @@ def make_helper(item, origin):
         elif txt in ("&self", "& self"):
             self_kind = "ref"
         elif "self" == txt.replace("&mut ", "").strip():
-            raise Unsupported("helper %s takes &mut self" % item.name)
+            self_kind = "mut"
         else:
             m = re.match(r"(?:mut )?(\w+)\s*:\s*(.*)$", txt)
             if not m:
@@ -639,6 +642,11 @@ def make_helper(item, origin):
     for x in body:
         if (x.kind == "ident" and x.text == "return") or (x.kind == "punct" and x.text == "?"):
             raise Unsupported("helper %s contains return/?" % item.name)
+    if self_kind == "mut":
+        code = [x for x in body if _is_code(x)]
+        for i_, x in enumerate(code):
+            if x.kind == "ident" and x.text == "self" and not (i_ + 1 < len(code) and code[i_ + 1].text == "."):
+                raise Unsupported("helper %s uses `self` other than as `self.<field or method>`" % item.name)
     body = r1_strip_attrs_docs(body, [], origin)
     body = r3_bytes(body, [], origin)
     return {"name": item.name, "params": params, "self_kind": self_kind, "body_toks": body, "origin": origin}
